@@ -234,6 +234,17 @@ func rapidHistory(o *kit.Out, r *kit.Rand, emptyTicks bool) {
 	requested := int64(0)
 	rounds := int(r.Range(2000, 6000))
 	sz := nw/2 + int(r.Range(1, int64(nw)))
+	// the progress reporter takes its snapshots while requests are being reported dropped (here far
+	// more often than once a second): a report is a report, whenever a snapshot is taken
+	var snapDone atomic.Bool
+	var swg sync.WaitGroup
+	swg.Add(1)
+	go func() {
+		defer swg.Done()
+		for !snapDone.Load() {
+			_ = stats.Snapshot(time.Second)
+		}
+	}()
 	for k := 0; k < rounds; k++ {
 		pool.Trigger(wctx, sz)
 		requested += int64(sz)
@@ -242,6 +253,7 @@ func rapidHistory(o *kit.Out, r *kit.Rand, emptyTicks bool) {
 		}
 	}
 	cancel()
+	defer func() { snapDone.Store(true); swg.Wait() }()
 	if !waitDone(m, 30*time.Second) {
 		o.Fail("pool-not-complete", "trigger pool did not complete within 30s after cancel")
 		return
